@@ -37,6 +37,34 @@ def main(pid, tier, replay_path=None):
             for s0, o in crashed:
                 violations.append(vlib.save_replay(pid, '%s_crash%d' % (tier, len(violations)), {'property': pid, 'scenario': s0, 'output': o}))
                 vlib.log('test process died in %s:\n%s' % (s0['id'], o[-1200:]))
+            # the slot level: SlotCache.tla exhaustive; its window / simulated schedules and random ones on the real cache and poller
+            mcov, mscs = {}, []
+            if not replay_path or (scs and 'conns' in scs[0]):
+                import slotp
+                if replay_path:
+                    mscs, scs, mst, mtr = scs, [], 0, 0
+                else:
+                    mst, mtr = slotp.exhaustive(sc, tier)
+                    mscs = slotp.scenarios(sc, tier, seed)
+                mres, mcr = conn.run_scenarios(sc, binary, mscs, 'm', procs=10, test='TestVerifSlotCache')
+                if not replay_path:
+                    base = [s for s in mscs if s['slkind'] == 'rnd'][:40 if tier == 'quick' else 1500]
+                    extra = conn.stall_variants(base, mres, per_scenario=25, rnd=random.Random(seed + 5), skip_actors=())
+                    extra += conn.window_variants(base[:20 if tier == 'quick' else 600], mres, per_scenario=40, rnd=random.Random(seed + 6), prefer=({13, 14, 12}, 'poller'))
+                    mres2, mcr2 = conn.run_scenarios(sc, binary, extra, 'n', procs=10, test='TestVerifSlotCache')
+                    mscs += extra; mres.update(mres2); mcr += mcr2
+                res.update(mres)
+                crashed += mcr
+                for s0, o in mcr:
+                    violations.append(vlib.save_replay(pid, '%s_crash%d' % (tier, len(violations)), {'property': pid, 'scenario': s0, 'output': o}))
+                    vlib.log('test process died in %s:\n%s' % (s0['id'], o[-1200:]))
+                c_, t_, ibad = slotp.impl_check(sc, [(s, mres[s['id']]) for s in mscs if s['id'] in mres and not mres[s['id']]['info'].get('stuck')], 'all')
+                mcov = {'slotcache_states': mst, 'slotcache_transitions': mtr, 'slotcache_executions': len(mres),
+                        'slotcache_tlc_behaviours_replayed': len([s for s in mscs if s.get('slkind') in ('window', 'sim')]),
+                        'slotcache_impl_spec_conformance': {'steps_followed': c_, 'steps_total': t_, 'all_followed': c_ == t_}}
+                if c_ != t_:
+                    vlib.log('note: SlotCache.tla could not follow a recorded schedule (step %d of %d, scenario %s): the code no longer matches it\n   %s' % (c_ + 1, t_, ibad[0], '\n   '.join(ibad[2])))
+                scs = scs + mscs
             vs, nlines, st = conn.validate(sc, res, [s['id'] for s in scs], 's', module='TraceSlot', deps=('SlotObs.tla',))
             byid = {s['id']: s for s in scs}
             seen = set()
@@ -54,18 +82,20 @@ def main(pid, tier, replay_path=None):
             stuck = sum(1 for r in res.values() if r['info'].get('stuck'))
             if res and stuck * 2 > len(res):
                 raise vlib.Inconclusive('%d of %d scenarios did not reach a quiescent point' % (stuck, len(res)))
-            reuse = sum(1 for r in res.values() if len({e['n'] for e in r['events'] if e['e'] == 'Opened'}) == 1 and sum(1 for e in r['events'] if e['e'] == 'Opened') == 2)
+            reuse = sum(1 for r in res.values() if 'events' in r and len({e['n'] for e in r['events'] if e['e'] == 'Opened'}) == 1 and sum(1 for e in r['events'] if e['e'] == 'Opened') == 2)
             for s in scs[:2]:
                 r = res.get(s['id'])
                 if r:
                     samples.append({'scenario': {k: s[k] for k in s if k != 'plan'}, 'events': ['%s:%s:%s:%s' % (e['g'], e['e'], e['k'], e['n']) for e in r['events'][:40]]})
-            cov = {'states': st.get('states', 1), 'transitions': st.get('transitions', 1), 'traces_validated_against_impl': len(res), 'samples': samples,
+            cov = {'states': mcov.get('slotcache_states') or st.get('states', 1), 'transitions': mcov.get('slotcache_transitions') or st.get('transitions', 1),
+                   'trace_validation_states': st.get('states', 1), 'traces_validated_against_impl': len(res), 'samples': samples,
                    'trace_events_validated': nlines, 'scenarios_where_B_inherited_As_slot': reuse, 'scenarios_not_quiescent': stuck,
                    'distinct_schedules': len({tuple(r['info']['taken']) for r in res.values()}),
-                   'spec_modules': vlib.spec_hashes(['SlotObs.tla', 'TraceSlot.tla']),
-                   'explanation': 'two real connections on one manual poller under the controlled scheduler: close/stale calls on A, fetch and dispatch as separate '
+                   'spec_modules': vlib.spec_hashes(['SlotCache.tla', 'TraceSlotCacheImpl.tla', 'SlotObs.tla', 'TraceSlot.tla']),
+                   'explanation': 'SlotCache.tla (operator cache, state word, detach-once, reset, handler dispatch) model-checked exhaustively (states/transitions are its); its deviation counterexamples, simulated and random schedules run on the real cache and poller with recording callbacks and are replayed step by step in the model; two real connections on one manual poller under the controlled scheduler: close/stale calls on A, fetch and dispatch as separate '
                                   'scheduler steps, B opened at any point; traces validated by TLC against SlotObs.tla. (Stale calls after a completed close with '
                                   'guaranteed slot reuse are additionally enumerated by the C12 table, rule C10.stale_call_disturbed_another_connection.)'}
+            cov.update(mcov)
             vlib.write_evidence(pid, tier, 'model_checking', cov, time.time() - t0, len(violations),
                                 ['TLC/SANY', 'controlled scheduler and manual poller of the harness', 'kernel descriptor-number reuse as observed'])
     except vlib.Inconclusive as e:
